@@ -7,10 +7,14 @@ def model(c, canary_cfg, canary_expect, two_conns=False):
     """(M): the single-router model satisfies all router properties; the property's canary must be rejected.
     quick: 2 peers x 2 topics, one connection per peer (two for C29, where the first-connection rule matters);
     thorough: + two connections per peer + 3 peers (one explicit)."""
-    if c.quick and not two_conns:
+    if c.quick:
         c.tlc_mc("Gossipsub", "MCGossipsub_1c.cfg", timeout=600)
+        if two_conns:
+            # two connections per peer: 1 peer x 2 topics and 2 peers x 1 topic (the full product is thorough-tier)
+            c.tlc_mc("Gossipsub", "MCGossipsub_2c1p.cfg", timeout=300)
+            c.tlc_mc("Gossipsub", "MCGossipsub_2c1t.cfg", timeout=300)
     else:
-        c.tlc_mc("Gossipsub", "MCGossipsub.cfg", timeout=900)
+        c.tlc_mc("Gossipsub", "MCGossipsub.cfg", timeout=1500)
     c.tlc_mc("Gossipsub", "MCGossipsub_filter.cfg", timeout=300)
     c.tlc_mc("Gossipsub", canary_cfg, expect=canary_expect, timeout=300)
     if not c.quick:
